@@ -17,7 +17,9 @@ def combos(ctx, rnd):
             ('**/*', S | D | F), ('*/**', S), ('.d/**', S), ('**/.d/x', S), ('**/x', S | D),
             ('**/c/**', S), ('**/c/**/y', S), ('**/x/**', S), ('L/**/x/**', S), ('**/c/**', S | F), ('***/c/**', L), ('**/c/***', L), ('**/f', S), ('**/lf', S),
             ('ld/*', 0), ('**/d/*', S), ('*/f', 0), ('**/r/**/x', S), ('**/**', S), ('r/**/c/**', S)]
-    lists = [(['*', '!a'], N, None), (['**'], S, ['**/x']), (['a/*', 'b/*'], 0, None), (['**', '!**/d/**'], S | N, None), (['*'], 0, ['.*']), (['**/x'], S, ['a/**'])]
+    lists = [(['*'], 0, ['*/']), (['**'], S, ['**/']), (['*', 'a/*'], 0, ['a/']), (['**'], S, ['*/d/']), (['*'], N, None) if False else (['*', '!*/'], N, None),
+             (['.*', '.d/*'], 0, ['*']), (['.d/*'], S, ['**/x']), (['a/.*', '**/x'], S, ['**/.y']), (['**/.*'], S | D, ['**/x']), (['.d/x'], S, ['*/x']),
+             (['*', '!a'], N, None), (['**'], S, ['**/x']), (['a/*', 'b/*'], 0, None), (['**', '!**/d/**'], S | N, None), (['*'], 0, ['.*']), (['**/x'], S, ['a/**'])]
     names = list(symfs.templates())
     out = []
     quick_t = ['flat', 'nest', 'link1', 'link2', 'hid', 'case', 'sib', 'dotlink', 'hid2']
@@ -27,8 +29,10 @@ def combos(ctx, rnd):
             out.append(('c04', t, (p, f, None, 'root_dir')))
         out.append(('c04', 'link1', (p, f, None, 'dir_fd' if k % 2 else 'cwd')))
     for k, (p, f, ex) in enumerate(lists):
-        for t in (['nest', 'link1', 'hid'] if ctx.quick else names):
+        for t in (['nest', 'link1', 'hid', 'hid2', 'linkfile', 'flat'] if ctx.quick else names):
             out.append(('c04', t, (p, f, ex, 'root_dir')))
+            if k % 3 == 0:
+                out.append(('c04', t, (p, f, ex, 'dir_fd')))
     return out
 
 
